@@ -494,6 +494,27 @@ func muxPoint(c *caseCtx, k *kit, m muxG, ops []*node, p []int, truth []bool, x 
 			break
 		}
 	}
+	if pop > 0 && c.Rng.Intn(4) == 0 {
+		// an enumeration left from inside the callback (a panic that the caller recovers) must not
+		// change what later queries on this or any other mux report
+		after, k := c.Rng.Intn(2), 0
+		func() {
+			defer func() {
+				if e := recover(); e != nil {
+					if _, ok := e.(abandonedIter); !ok {
+						panic(e)
+					}
+					c.Count(T+"enumerations_abandoned_from_the_callback", 1)
+				}
+			}()
+			m.Iter(x, func(int) {
+				if k == after {
+					panic(abandonedIter{})
+				}
+				k++
+			})
+		}()
+	}
 	seen := make([]int, n)
 	bad := false
 	cnt := m.Iter(x, func(i int) {
@@ -530,3 +551,5 @@ func muxPoint(c *caseCtx, k *kit, m muxG, ops []*node, p []int, truth []bool, x 
 		c.Count(T+"points_in_two_or_more", 1)
 	}
 }
+
+type abandonedIter struct{}
